@@ -191,6 +191,7 @@ class Grammar(object):
         if v is None:
             raise AnalysisError('grammar builder %s has no return' % self.fi.qualname)
         self.root = self._term(v, self.root_stmt.value)
+        self._streamline()
 
     def _run(self, fi, bound, top=False, depth=0):
         """Evaluate the straight-line body of fi (a grammar builder or one of its helpers) with `bound` parameters;
@@ -223,26 +224,92 @@ class Grammar(object):
                     if top:
                         self.root_stmt = s
                     continue
-                if isinstance(s, ast.Assign):
-                    v = self._eval(s.value)
-                    for t in s.targets:
-                        self._bind(t, v, s)
-                    continue
-                if isinstance(s, ast.AugAssign):
-                    if isinstance(s.op, ast.LShift) and isinstance(s.target, ast.Name):
-                        self._bind_forward(self.env.get(s.target.id), self._eval(s.value), s)
-                        continue
-                    raise AnalysisError('unsupported augmented assignment in grammar builder: `%s`' % short(s))
-                if isinstance(s, ast.Expr):
-                    self._eval_stmt_expr(s.value)
-                    continue
-                raise AnalysisError('unsupported statement in grammar builder %s (line %d): `%s` -- only straight-line '
-                                    'code is evaluated' % (fi.qualname, s.lineno, short(s, 60)))
+                self._exec(s, fi)
         finally:
             if not top:
                 self.fi, self.module, self.env, self._self = saved
             self._depth = depth - 1 if depth else 0
         return result
+
+    def _exec(self, s, fi, depth=0):
+        """One statement of a builder body.  Besides straight-line code: `for <targets> in <local literal table>` (unrolled
+        row by row) and `if` whose test is decidable on the abstract values (`x is None`, `x is not None`, and/or/not)."""
+        if depth > 6:
+            raise AnalysisError('statements nested too deeply in grammar builder %s' % fi.qualname)
+        if isinstance(s, ast.Expr) and isinstance(s.value, ast.Constant) or isinstance(s, ast.Pass):
+            return
+        if isinstance(s, ast.Assign):
+            v = self._eval(s.value)
+            for t in s.targets:
+                self._bind(t, v, s)
+            return
+        if isinstance(s, ast.AugAssign):
+            if isinstance(s.op, ast.LShift) and isinstance(s.target, ast.Name):
+                self._bind_forward(self.env.get(s.target.id), self._eval(s.value), s)
+                return
+            raise AnalysisError('unsupported augmented assignment in grammar builder: `%s`' % short(s))
+        if isinstance(s, ast.Expr):
+            self._eval_stmt_expr(s.value)
+            return
+        if isinstance(s, ast.For) and not s.orelse:
+            table = self._eval(s.iter)
+            if not isinstance(table, tuple):
+                raise AnalysisError('loop in grammar builder %s is not over a literal local table: `%s`' % (fi.qualname, short(s.iter)))
+            if len(table) > 64:
+                raise AnalysisError('table too long to unroll in grammar builder')
+            for row in table:
+                self._bind(s.target, row, s)
+                for b in s.body:
+                    if any(isinstance(n, (ast.Break, ast.Continue, ast.Return)) for n in ast.walk(b)):
+                        raise AnalysisError('break/continue/return inside a loop of grammar builder %s' % fi.qualname)
+                    self._exec(b, fi, depth + 1)
+            return
+        if isinstance(s, ast.If):
+            t = self._truth(s.test)
+            for b in (s.body if t else s.orelse):
+                if any(isinstance(n, ast.Return) for n in ast.walk(b)):
+                    raise AnalysisError('return inside a conditional of grammar builder %s' % fi.qualname)
+                self._exec(b, fi, depth + 1)
+            return
+        raise AnalysisError('unsupported statement in grammar builder %s (line %d): `%s` -- only straight-line code, loops over '
+                            'literal tables and None-tests are evaluated' % (fi.qualname, s.lineno, short(s, 60)))
+
+    def _truth(self, e):
+        if isinstance(e, ast.Constant):
+            return bool(e.value)
+        if isinstance(e, ast.UnaryOp) and isinstance(e.op, ast.Not):
+            return not self._truth(e.operand)
+        if isinstance(e, ast.BoolOp):
+            vals = [self._truth(v) for v in e.values]
+            return all(vals) if isinstance(e.op, ast.And) else any(vals)
+        if isinstance(e, ast.Compare) and len(e.ops) == 1 and isinstance(e.ops[0], (ast.Is, ast.IsNot)):
+            a, b = self._eval(e.left), self._eval(e.comparators[0])
+            none = lambda v: isinstance(v, Const) and v.value is None
+            if none(a) or none(b):
+                same = none(a) and none(b)
+                return same if isinstance(e.ops[0], ast.Is) else not same
+        raise AnalysisError('condition `%s` in the grammar builder cannot be decided on the abstract values' % short(e))
+
+    def _streamline(self):
+        """pyparsing's streamline(): nested And/MatchFirst without parse action and results name are merged into their
+        parent (done on the finished graph, because actions may be attached after a sequence was nested)."""
+        changed = True
+        rounds = 0
+        while changed and rounds < 20:
+            changed = False
+            rounds += 1
+            for t in self.nodes():
+                if t.kind not in ('and', 'first') or t.stop is not None:
+                    continue
+                new = []
+                for k in t.kids:
+                    if k.kind == t.kind and not k.actions and not k.name and not k.origin and k.stop is None and k is not t:
+                        new.extend(k.kids)
+                        changed = True
+                    else:
+                        new.append(k)
+                if len(new) != len(t.kids):
+                    t.kids = new
 
     def _bind(self, target, v, stmt):
         if isinstance(target, ast.Name):
